@@ -860,7 +860,7 @@ namespace Clipper2Lib {
         op2 = op2->next;
     }
     op = op2; // needed for op cleanup
-    if (!op2) return Path64();
+    if (!op2 || op2->next == op2->prev) return Path64(); // fewer than 3 points left
 
     Path64 result;
     result.emplace_back(op->pt);
